@@ -72,13 +72,20 @@ TStats == /\ Is("Stats") /\ \A r \in Reqs : rq[r].phase = "done"
           /\ ("tr" \in DOMAIN E /\ "translator" \in Scopes) =>
                 /\ E.tr.total = E.tr.ok + E.tr.fail
                 /\ E.tr.total = Cardinality({r \in Reqs : Translated(rq[r].route)})
-                /\ \/ E.tr.ok = Cardinality({r \in Reqs : Translated(rq[r].route) /\ rq[r].last = "full" /\ rq[r].pst < 400})
-                   \* Known finding KF-C19-3 (only if listed): a backend's own 4xx/5xx answer, relayed or translated,
-                   \* is booked as a SUCCESS at translator scope (the repository's tests pin this down)
-                   \/ /\ "KF-C19-3" \in KnownDeviations
-                      /\ \E r \in Reqs : Translated(rq[r].route) /\ rq[r].last = "full" /\ rq[r].pst >= 400
-                      /\ E.tr.ok = Cardinality({r \in Reqs : Translated(rq[r].route) /\ rq[r].last = "full"})
-                      /\ UseDeviation("KF-C19-3")
+                /\ LET full == Cardinality({r \in Reqs : Translated(rq[r].route) /\ rq[r].last = "full" /\ rq[r].pst < 400})
+                       err  == Cardinality({r \in Reqs : Translated(rq[r].route) /\ rq[r].last = "full" /\ rq[r].pst >= 400})
+                       ab   == Cardinality({r \in Reqs : Translated(rq[r].route) /\ rq[r].last = "aborted"})
+                   IN \/ E.tr.ok = full
+                      \* Known finding KF-C19-3 (only if listed): a backend's own 4xx/5xx answer, relayed or translated,
+                      \* is booked as a SUCCESS at translator scope (the repository's tests pin this down)
+                      \/ /\ "KF-C19-3" \in KnownDeviations /\ err > 0 /\ ab = 0
+                         /\ E.tr.ok = full + err
+                         /\ UseDeviation("KF-C19-3")
+                      \* Known finding KF-C19-5 (only if listed), translator scope: a stream the client walked away
+                      \* from may be booked as a success (it depends on who notices the hang-up first)
+                      \/ /\ "KF-C19-5" \in KnownDeviations /\ ab > 0
+                         /\ E.tr.ok > full /\ E.tr.ok <= full + ab + (IF "KF-C19-3" \in KnownDeviations THEN err ELSE 0)
+                         /\ UseDeviation("KF-C19-5")
           /\ UNCHANGED vars /\ l' = l + 1
 
 TSilent == /\ \/ \E r \in Reqs : AttemptEnd(r)
